@@ -312,6 +312,19 @@ func (w *World) FuncIn(pkgPath, name string) *ssa.Function {
 	return fn
 }
 
+// TryFuncIn is FuncIn without failing.
+func (w *World) TryFuncIn(pkgPath, name string) *ssa.Function {
+	sp := w.SSAPkgs[pkgPath]
+	if sp == nil {
+		return nil
+	}
+	fn := sp.Func(name)
+	if fn == nil || fn.Blocks == nil {
+		return nil
+	}
+	return fn
+}
+
 // TryFunc is Func without failing.
 func (w *World) TryFunc(name string) *ssa.Function {
 	fn := w.FoxSSA.Func(name)
